@@ -307,6 +307,57 @@ def prior_job(job):
     return acc
 
 
+def generic_job(job):
+    """The generic ids 'modbus-<register>': write_setting writes exactly that register with the 16-bit two's complement of the
+    value, nothing else changes, and read_setting of the same id returns the value."""
+    variant, seed = job
+    acc = Acc()
+    fam = VARIANTS[variant]["family"]
+    regs = (45222, 47000, 47510, 47549, 30000, 65535, 0, 1) if fam != "ES" else (45222, 47000, 47510, 47549, 30001, 65535, 32768, 40000)
+    values = (0, 1, -1, 2, 255, 256, -256, 32767, -32768, 0x1234, -0x1234, 100)
+    for j, reg in enumerate(regs):
+        for v in values:
+            acc.case()
+            acc.nontrivial("generic", variant, reg, v)
+            inv, sim = build(variant, seed + j, tcp=bool(j & 1))
+            m = sim.modbus if isinstance(sim, siminv.Aa55Sim) else sim
+            before = dict(m.regs)
+            prior = m.get(reg)
+            nw0 = all_write_count(sim)
+            case = {"generic": True, "variant": variant, "reg": reg, "value": v, "seed": seed + j, "tcp": bool(j & 1)}
+            sid = "modbus-%d" % reg
+            from goodwe.exceptions import InverterError
+            try:
+                run_sync(inv.write_setting(sid, v))
+            except InverterError:
+                acc.cls("generic|refused-by-this-firmware")     # the property speaks about writes that succeed
+                if m.regs != before:
+                    acc.fail("C17|%s|generic|refused-write-changed-registers" % fam, "write_setting(%r, %d) failed but registers changed" % (sid, v), case)
+                continue
+            except Exception as ex:
+                acc.fail("C17|%s|generic|write-raised|%s" % (fam, type(ex).__name__), "write_setting(%r, %d) raised %r" % (sid, v, ex), case)
+                continue
+            if all_write_count(sim) - nw0 != 1:
+                acc.fail("C17|%s|generic|write-count" % fam, "write_setting(%r, %d) sent %d writes" % (sid, v, all_write_count(sim) - nw0), case)
+                continue
+            if m.get(reg) != v & 0xFFFF:
+                acc.fail("C17|%s|generic|wrong-encoding" % fam, "write_setting(%r, %d): register holds %04x (prior %04x)" % (sid, v, m.get(reg), prior), case)
+                continue
+            stray = sorted(a for a in set(before) | set(m.regs) if a != reg and before.get(a, None) != m.regs.get(a, None))
+            if stray:
+                acc.fail("C17|%s|generic|foreign-registers-changed" % fam, "write_setting(%r, %d) also changed %s" % (sid, v, stray[:5]), case)
+                continue
+            try:
+                got = run_sync(inv.read_setting(sid))
+            except Exception as ex:
+                acc.fail("C17|%s|generic|readback-raised|%s" % (fam, type(ex).__name__), "read_setting(%r) raised %r" % (sid, ex), case)
+                continue
+            if got != v:
+                acc.fail("C17|%s|generic|readback-differs" % fam, "read_setting(%r) = %r after writing %d" % (sid, got, v), case)
+    acc.sample({"generic": True, "variant": variant, "reg": regs[1], "value": -1})
+    return acc
+
+
 class _PreReadFault:
     """Responder wrapper: the next READ request is answered abnormally (once)."""
 
@@ -556,6 +607,7 @@ def run(ctx):
     ctx.shard(prior_job, [(v, ctx.quick) for v in VARIANTS], "one-byte settings: every value of the other half of the shared register (quick) / every prior word (thorough)")
     ctx.exhaustive_parts.append("one-byte settings x all 256 values of the other register half x 4 own-half values + sentinel words" if ctx.quick
                                 else "one-byte settings x all 65,536 prior register words x 5 values")
+    ctx.shard(generic_job, [(v, ctx.seed) for v in VARIANTS], "generic 'modbus-N' ids: one write of exactly that register, read back")
     ctx.shard(faulty_preread_job, [(v,) for v in VARIANTS], "one-byte settings whose pre-read is refused / unanswered / answered without payload: no other register (half) may change")
     n = ctx.pick(2400, 60000)
     ctx.shard(hyp_job, [(ctx.seed * 1000 + i, n // 16) for i in range(16)], "hypothesis (variant, setting, value, prior image)")
@@ -563,6 +615,9 @@ def run(ctx):
 
 
 def replay(ctx, case):
+    if case.get("generic"):
+        ctx.acc.merge(generic_job((case["variant"], case["seed"])))
+        return
     if case.get("faulty_preread"):
         check_faulty_preread(ctx.acc, case["variant"], case["setting"], case["value"], case["prior_word"], case["faulty_preread"], case.get("tcp", False))
         return
